@@ -216,6 +216,7 @@ def _float(I, args, kw):
 def _str(I, args, kw):
     if not args: return ''
     v = args[0]
+    if isinstance(v, SInt): return _interp().NumStr(v)
     if isinstance(v, (str, int, float)) and not V.is_sym(v): return str(v)
     return Opaque('str')
 
@@ -602,7 +603,7 @@ def _itervalues(I, args, kw):
 
 COMPAT_NS = {
     'IS_PYTHON2': False, 'IS_PYTHON3': True, 'IS_PYPY': False, 'IS_JYTHON': False,
-    'PYTHON_VERSION': (3, 12, 1),
+    'PYTHON_VERSION': Opaque('version_info', attrs_set={'major': 3, 'minor': 12, 'micro': 1}),
     'byte2int': Builtin('byte2int', _byte2int), 'int2byte': Builtin('int2byte', _int2byte),
     'iteritems': Builtin('iteritems', _iteritems), 'iterkeys': Builtin('iterkeys', _iterkeys),
     'itervalues': Builtin('itervalues', _itervalues), 'get_next': BUILTINS['next'],
@@ -660,6 +661,13 @@ class FloatV:
 
 def struct_pack(I, fmt, vals):
     USED.add('struct.pack')
+    if isinstance(fmt, _interp().FmtS):
+        # '<' + str(n) + 's' with n == len(value): the value itself (no padding, no truncation)
+        if fmt.suffix != 's' or len(vals) != 1: raise Unsupported('dynamic struct format')
+        v = to_seq(vals[0])
+        if not v.is_bytes(): raise Raised('struct.error')
+        if not I.st.provable(zint(v.n) == zint(fmt.n)): raise Unsupported("'%ds' item whose length is not the count")
+        return v.as_kind('bytes')
     order, items = parse_fmt(fmt)
     nvals = sum(1 for c, ch in items if ch != 'x')
     if nvals != len(vals): raise Raised('struct.error')
@@ -691,7 +699,12 @@ def struct_pack(I, fmt, vals):
                 bits = int.from_bytes(raw, 'big')
             else:
                 raise Raised('struct.error')
-            bs = [mk((zint(bits) / (256 ** k)) % 256) for k in reversed(range(n))]
+            bs = []
+            for k in reversed(range(n)):
+                bt = mk((zint(bits) / (256 ** k)) % 256)
+                if isinstance(bt, SInt):
+                    bt.part = (zint(bits), k, 1)
+                bs.append(bt)
         elif ch == '?':
             t = I.truth(v)
             bs = [mk(zint(t))]
@@ -709,7 +722,25 @@ def struct_pack(I, fmt, vals):
                 vz = zint(v)
                 if not I.st.decide(z3.And(vz >= lo, vz < hi)): raise Raised('struct.error')
                 u = z3.If(vz < 0, vz + 256 ** n, vz) if signed else vz
-                bs = [mk((u / (256 ** k)) % 256) for k in reversed(range(n))]
+                if isinstance(v, SInt) and v.bytes_be is not None and len(v.bytes_be) == n and not signed:
+                    # pack(unpack(bytes)) of the same unsigned width gives the bytes back
+                    bs = list(v.bytes_be)
+                    if order == '<': bs = list(reversed(bs))
+                    out.extend(bs)
+                    continue
+                # byte-slice provenance: byte j of the n-byte image of u is (u div 256^(n-1-j)) mod 256.  Values that are
+                # themselves slices (u0, k0, n) keep pointing at the original value u0.
+                if isinstance(v, SInt) and v.part is not None and v.part[2] == n and not signed:
+                    u0, k0 = v.part[0], v.part[1]
+                else:
+                    u0, k0 = u, 0
+                bs = []
+                for k in reversed(range(n)):
+                    # byte k of the slice (u0 div 256^k0) mod 256^n is (u0 div 256^(k0+k)) mod 256: same term shape everywhere
+                    bt = mk((u0 / (256 ** (k0 + k))) % 256)
+                    if isinstance(bt, SInt):
+                        bt.part = (u0, k0 + k, 1)
+                    bs.append(bt)
         if order == '<': bs = list(reversed(bs))
         out.extend(bs)
     return Seq('bytes', None, items=out)
@@ -769,6 +800,25 @@ def struct_unpack(I, fmt, data):
             if ch == '?': out.append(u != 0); continue
             if ch.islower() and u >= (256 ** n) // 2: u -= 256 ** n
             out.append(u); continue
+        # recomposition of consecutive byte slices of one value u0:  sum_j byte_j * 256^(n-1-j) == (u0 div 256^k) mod 256^n
+        parts = [b.part if isinstance(b, SInt) else None for b in bs]
+        if n >= 2 and all(p is not None and p[2] == 1 for p in parts) and all(parts[j][0].eq(parts[0][0]) and parts[j][1] == parts[0][1] - j for j in range(n)):
+            u0, k0 = parts[0][0], parts[-1][1]
+            t = u0 if k0 == 0 else u0 / (256 ** k0)
+            t = t % (256 ** n)
+            if k0 == 0 and I.st.quick(z3.And(u0 >= 0, u0 < 256 ** n)):
+                t = u0
+            if ch in 'efd':
+                ident = mk(float_fn(ch, 'val')(t))
+                out.append(FloatV(ident)); continue
+            if ch.islower():
+                t = z3.If(t >= (256 ** n) // 2, t - 256 ** n, t)
+            r = mk(t)
+            if isinstance(r, SInt) and not ch.islower():
+                r.part = (u0, k0, n)
+                r.bytes_be = list(bs)
+            out.append(r)
+            continue
         u = z3.IntVal(0)
         for b in bs: u = u * 256 + zint(b)
         if ch in 'efd':
@@ -777,7 +827,10 @@ def struct_unpack(I, fmt, data):
         if ch == '?': out.append(mk(u != 0)); continue
         if ch.islower():
             u = z3.If(u >= (256 ** n) // 2, u - 256 ** n, u)
-        out.append(mk(u))
+        r = mk(u)
+        if isinstance(r, SInt) and not ch.islower() and n >= 2:
+            r.bytes_be = list(bs)
+        out.append(r)
     return tuple(out)
 
 
